@@ -24,6 +24,23 @@ CHECKS = {
  "C18": ("no short-count I/O primitive anywhere (forwarding Write impls excepted), no discarded Result, fill_buf contents only tested for emptiness (followed into the functions the bytes are handed to), every BufReader has a non-zero capacity, whole-input reads, no BufWriter", "typed call inventory; Result-use discipline; forward flow from fill_buf", "4/C18"),
  "C19": ("Option-returning accessors contain no panic site, FusedIterator / ExactSizeIterator obligations of the 4 iterators (no write before None, every yield advances the guarded field), next/size_hint total", "may-panic inventory restricted to the array API; field-write analysis of None paths; size_hint slice", "4/C19"),
 }
+SHARED = {
+ "C01": "genotype classification (C08.a/b/e), samples-file parser (C09.d), per-record reset (C11.a/b)",
+ "C02": "genotype classification (C08.a/b)",
+ "C05": "text values printed as stored (C07.c), output files created-or-truncated (C07.g)",
+ "C06": "interior-only summation and single result expressions (C14.d), factorial helpers (C02.g)",
+ "C07": "accepted precision range (C17.f)",
+ "C08": "per-record reset (C11.a/b)",
+ "C09": "every selected sample of a record is examined (C01.b)",
+ "C10": "every selected sample of a record is examined (C01.b), factorial helpers / pmf (C02.g)",
+ "C12": "no short-count reads (C18.a)",
+ "C13": "marginalize: validation, renumbering, Array::sum (C04.a/c/d), output files created-or-truncated (C07.g)",
+ "C14": "Fst pairing and statistic result expressions (C06.e)",
+ "C15": "reader input buffer untouched (C07.e), output files created-or-truncated (C07.g)",
+ "C16": "reader input buffer untouched (C07.e)",
+ "C18": "unusable records fail the run (C08.f)",
+ "C19": "Array::sum accumulates every view (C04.d)",
+}
 NA = {
  "C03x": "numerical identity of the projection operator (sum of products of hypergeometric pmfs), finiteness at large sizes and algebraic laws between evaluations: no clause is visible in the shape of the code beyond input validation (covered by C17 contracts) and the 2i+1 conversion (decided under C02.c); no sound static argument in reach bounds these values",
  "C04x": "equality of entries with array sums over all shapes/subsets/orders is index and stride arithmetic on runtime values; the structural preconditions (validate, sort, shift) are contract-checked under C17 and the keep->complement conversion under C13.d",
@@ -37,6 +54,8 @@ def main():
     na = [{"property_id": k, "reason": v} for k, v in sorted(NA.items()) if not k.endswith("x")]
     for pid in sorted(CHECKS):
         what, tech, ref = CHECKS[pid]
+        if pid in SHARED:
+            what += "; clauses shared with other properties and evaluated here as well: " + SHARED[pid]
         if pid not in impl:
             na.append({"property_id": pid, "reason": "claimed in DESIGN.md but its check is not built yet in this commit (no verdict is given)"})
             continue
